@@ -121,6 +121,15 @@ class Prog:
                 A("void %s_%s_hook(%s_state_t *state, uint8_t inval) { drv_hook(%d, inval, state, &%s_desc_); }" % (n, h, n, i, n))
             else:
                 A("static void %s_%s_hookfn(struct %s_state *state, uint8_t inval) { drv_hook(%d, inval, state, &%s_desc_); }" % (n, h, n, i, n))
+        A("static void %s_prep(void *v) { %s_ST *s = v; (void)s;" % (n, n))
+        for o in self.outs:
+            if o["kind"] in ("int", "bool"):
+                A("  s->c.%s = 0;" % o["name"])
+            elif o["kind"] == "enum":
+                A("  s->c.%s = (%s_out_%s_t)0;" % (o["name"], n, o["name"]))
+            elif o["kind"] == "raw":
+                A("  memset(&s->c.%s, 0, sizeof s->c.%s);" % (o["name"], o["name"]))
+        A("}")
         A("static void %s_sethooks(void *v) { %s_ST *s = v; (void)s;" % (n, n))
         if self.hook_state and not self.hook_global:
             for h in self.hooks:
@@ -178,8 +187,8 @@ class Prog:
         fy = (3 + len(self.fcodes)) if self.ycodes else -1
         A("static const drv_prog_t %s_desc_ = { \"%s\", sizeof(%s_ST), %d, %d, %d, %d, %s_OK, %s_FAIL, %s_DONE, %d, %d," %
           (n, n, n, int(self.indirect), int(self.eof), int(self.dynamic), len(self.hooks), U, U, U, fy, len(self.codes)))
-        A("  %s_startw, %s_feedw, %s, %s, %s_snap, %s_sethooks, %s_deepcopy, %s_deepfree, %s_set, %s_setstr, %s_getstate, %s_setstate, %s_inv };" %
-          (n, n, ("%s_endw" % n) if self.eof else "NULL", ("%s_freew" % n) if self.dynamic else "NULL", n, n, n, n, n, n, n, n, n))
+        A("  %s_startw, %s_feedw, %s, %s, %s_snap, %s_sethooks, %s_deepcopy, %s_deepfree, %s_set, %s_setstr, %s_getstate, %s_setstate, %s_inv, %s_prep };" %
+          (n, n, ("%s_endw" % n) if self.eof else "NULL", ("%s_freew" % n) if self.dynamic else "NULL", n, n, n, n, n, n, n, n, n, n))
         A("const drv_prog_t *const %s_desc = &%s_desc_;" % (n, n))
         # enumerator order check: the documented names exist and the header's values are the ones the decoder assumes
         for i, c in enumerate(self.codes):
